@@ -336,18 +336,16 @@ fn show_line(l: &Line) -> String {
     }
 }
 
-#[cfg(not(feature = "names"))]
-fn show_lineerr(e: &line::Error) -> String {
-    probe(e);
-    "err:other".into()
-}
-
-#[cfg(feature = "names")]
+// The error variants the properties name (C05's five kinds, C08's I/O error) are named here behind four cargo features, one per
+// enum, so that a tree which renamed or reshaped one of them still builds (cflib.build_harness drops features until it does);
+// errors of an enum whose names are gone are classified without naming a variant (`classify_unknown`).
 fn show_lineerr(e: &line::Error) -> String {
     probe(e);
     #[allow(unreachable_patterns)]
     match e {
+        #[cfg(feature = "lin")]
         line::Error::InvalidHeaderRecord { .. } => "err:hdr".into(),
+        #[cfg(feature = "lin")]
         line::Error::InvalidAlignmentDataRecord { .. } => "err:dat".into(),
         _ => "err:other".into(),
     }
@@ -362,38 +360,67 @@ fn show_ioerr(e: &io::Error) -> &'static str {
     }
 }
 
-#[cfg(not(feature = "names"))]
-fn show_secerr(e: &sections::Error) -> String {
+/// an error no variant of which is named: an `io::Error` anywhere in its chain of sources is the reader's I/O error (C08), an
+/// encoding complaint is the invalid-UTF-8 case, anything else is `other`
+fn classify_unknown(e: &(dyn std::error::Error + 'static)) -> String {
+    if let Some(io) = find_io(e) {
+        return show_ioerr(io).into();
+    }
+    // no source() chain to walk (the pinned error types have none): the derived Debug output still shows an io::Error inside
+    let text = format!("{} {:?}", e, e).to_lowercase();
+    if text.contains("utf-8") || text.contains("utf8") || text.contains("kind: invaliddata") {
+        return "utf8".into();
+    }
+    if text.contains("kind: ") || text.contains("os error") {
+        return "io".into();
+    }
+    "other".into()
+}
+
+#[allow(dead_code)]
+fn show_badline(e: &line::Error) -> String {
     probe(e);
-    match find_io(e) {
-        Some(io) => show_ioerr(io).into(),
-        None => "other".into(),
+    #[allow(unreachable_patterns)]
+    match e {
+        #[cfg(feature = "lin")]
+        line::Error::InvalidHeaderRecord { line, .. } => format!("badline:h:{}", show_x(line.as_bytes())),
+        #[cfg(feature = "lin")]
+        line::Error::InvalidAlignmentDataRecord { line, .. } => format!("badline:d:{}", show_x(line.as_bytes())),
+        other => format!("badline:{}", classify_unknown(other)),
     }
 }
 
-#[cfg(feature = "names")]
+/// (is it a line error?, text)
+#[allow(dead_code)]
+fn show_readerr(e: &reader::Error) -> (bool, String) {
+    probe(e);
+    #[allow(unreachable_patterns)]
+    match e {
+        #[cfg(feature = "rdr")]
+        reader::Error::Io(e) => (false, show_ioerr(e).into()),
+        #[cfg(feature = "rdr")]
+        reader::Error::Line(l) => (true, show_badline(l)),
+        other => (false, classify_unknown(other)),
+    }
+}
+
 fn show_secerr(e: &sections::Error) -> String {
+    #[allow(unused_imports)]
     use sections::{Error as E, ParseError as P};
     probe(e);
+    #[allow(unreachable_patterns)]
     match e {
+        #[cfg(feature = "sec")]
         E::Parse(P::AbruptEndInSection { .. }) => "abrupt".into(),
+        #[cfg(feature = "sec")]
         E::Parse(P::BlankLineInSection(n)) => format!("blank:{}", n),
+        #[cfg(feature = "sec")]
         E::Parse(P::DataBetweenSections(d)) => format!("databetween:{}", show_drec(d)),
+        #[cfg(feature = "sec")]
         E::Parse(P::HeaderInSection(h)) => format!("hdrin:{}", show_header(h)),
-        E::Parse(P::Reader(reader::Error::Io(e))) => show_ioerr(e).into(),
-        E::Parse(P::Reader(reader::Error::Line(line::Error::InvalidHeaderRecord { line, .. }))) => {
-            format!("badline:h:{}", show_x(line.as_bytes()))
-        }
-        E::Parse(P::Reader(reader::Error::Line(line::Error::InvalidAlignmentDataRecord { line, .. }))) => {
-            format!("badline:d:{}", show_x(line.as_bytes()))
-        }
-        // a variant this harness does not know (a rewrite may restructure the error types): if an I/O error sits anywhere in its
-        // chain of sources it is the I/O error C08 speaks of, whatever wraps it
-        #[allow(unreachable_patterns)]
-        other => match find_io(other) {
-            Some(io) => show_ioerr(io).into(),
-            None => "other".into(),
-        },
+        #[cfg(feature = "sec")]
+        E::Parse(P::Reader(r)) => show_readerr(r).1,
+        other => classify_unknown(other),
     }
 }
 
@@ -423,14 +450,14 @@ fn show_builderr(e: &machine::builder::Error) -> String {
     #[allow(unused_imports)]
     use machine::builder::Error as E;
     probe(e);
-    #[cfg(feature = "names")]
+    #[cfg(feature = "bld")]
     if let E::InvalidSections(e) = e {
         return format!("sections:{}", show_secerr(e));
     }
     // any other (or unknown) variant: an I/O error anywhere in its chain of sources is the reader's
-    match find_io(e) {
-        Some(io) => format!("sections:{}", show_ioerr(io)),
-        None => "invalid".into(),
+    match classify_unknown(e).as_str() {
+        "other" => "invalid".into(),
+        k => format!("sections:{}", k),
     }
 }
 
@@ -580,9 +607,9 @@ fn cmd_pline(a: &str) -> String {
                 Ok(Line::Empty) => true,
                 Ok(Line::Header(h)) => direct_h.as_ref().ok() == Some(h),
                 Ok(Line::AlignmentData(d)) => direct_d.as_ref().ok() == Some(d),
-                #[cfg(feature = "names")]
+                #[cfg(feature = "lin")]
                 Err(line::Error::InvalidHeaderRecord { .. }) => direct_h.is_err(),
-                #[cfg(feature = "names")]
+                #[cfg(feature = "lin")]
                 Err(line::Error::InvalidAlignmentDataRecord { .. }) => direct_d.is_err(),
                 #[allow(unreachable_patterns)]
                 Err(_) => true,
@@ -947,16 +974,13 @@ fn cmd_ops(a: &str, ops: &str) -> String {
                         Ok(Some(l)) => show_line(l),
                         Err(e) => {
                             probe(e);
+                            #[allow(unreachable_patterns)]
                             match e {
-                                #[cfg(feature = "names")]
+                                #[cfg(feature = "rdr")]
                                 reader::Error::Io(e) => format!("err:{}", show_ioerr(e)),
-                                #[cfg(feature = "names")]
+                                #[cfg(feature = "rdr")]
                                 reader::Error::Line(e) => show_lineerr(e),
-                                #[allow(unreachable_patterns)]
-                                other => match find_io(other) {
-                                    Some(io) => format!("err:{}", show_ioerr(io)),
-                                    None => "err:other".into(),
-                                },
+                                other => format!("err:{}", classify_unknown(other)),
                             }
                         }
                     };
